@@ -202,6 +202,10 @@ func exprOf(e ast.Expr) string {
 			return "(NhVar " + tx.CoqString(c) + ")"
 		}
 		return "(NhVar " + tx.CoqString(x.Name) + ")"
+	case *ast.SelectorExpr:
+		if id, ok := x.X.(*ast.Ident); ok {
+			return "(NhVar " + tx.CoqString(id.Name+"."+x.Sel.Name) + ")"
+		}
 	case *ast.BasicLit, *ast.UnaryExpr:
 		if v, ok := intLit(e); ok {
 			return "(NhInt " + z(v) + ")"
@@ -546,6 +550,99 @@ func genNatHole() ([]byte, error) {
 		return nil, fmt.Errorf("ClassifyNATFeature not found")
 	}
 
+	// Controller.analysis: timeoutMs and the two ReadTimeoutMs; HandleVisitor: the stagger before the sender's response
+	rename = map[string]string{}
+	tInit, tGuard, tAdd := `(NhExprUnknown "absent")`, "NhAbsent", `(NhExprUnknown "absent")`
+	vRead, cRead := `(NhExprUnknown "absent")`, `(NhExprUnknown "absent")`
+	if fd := funcDecl(fk, "analysis"); fd != nil && fd.Body != nil {
+		nInit, nAdd := 0, 0
+		for _, st := range fd.Body.List {
+			switch x := st.(type) {
+			case *ast.AssignStmt:
+				if len(x.Lhs) == 1 && len(x.Rhs) == 1 && src(x.Lhs[0]) == "timeoutMs" {
+					if x.Tok == token.DEFINE {
+						tInit = exprOf(x.Rhs[0])
+						nInit++
+					} else {
+						tInit = "(NhExprUnknown " + tx.CoqString(src(x)) + ")"
+					}
+				}
+				// vResp := &msg.NatHoleResp{... DetectBehavior: msg.NatHoleDetectBehavior{ReadTimeoutMs: e}}
+				if x.Tok == token.DEFINE && len(x.Lhs) == 1 && (src(x.Lhs[0]) == "vResp" || src(x.Lhs[0]) == "cResp") {
+					found := `(NhExprUnknown "no ReadTimeoutMs")`
+					ast.Inspect(x.Rhs[0], func(n ast.Node) bool {
+						kv, ok := n.(*ast.KeyValueExpr)
+						if ok && src(kv.Key) == "ReadTimeoutMs" {
+							found = exprOf(kv.Value)
+						}
+						return true
+					})
+					if src(x.Lhs[0]) == "vResp" {
+						vRead = found
+					} else {
+						cRead = found
+					}
+				}
+			case *ast.IfStmt:
+				if len(x.Body.List) == 1 {
+					if as, ok := x.Body.List[0].(*ast.AssignStmt); ok && len(as.Lhs) == 1 && src(as.Lhs[0]) == "timeoutMs" {
+						nAdd++
+						if as.Tok == token.ADD_ASSIGN && x.Else == nil && x.Init == nil {
+							tGuard, tAdd = bexprOf(x.Cond), exprOf(as.Rhs[0])
+						} else {
+							tGuard = "(NhBUnknown " + tx.CoqString(src(x)) + ")"
+						}
+					}
+				}
+			}
+		}
+		if nInit != 1 || nAdd != 1 {
+			tGuard = `(NhBUnknown "timeoutMs is not assigned exactly once and raised exactly once")`
+		}
+	} else {
+		return nil, fmt.Errorf("Controller.analysis not found")
+	}
+	var staggers []string
+	if fd := funcDecl(fk, "HandleVisitor"); fd != nil && fd.Body != nil {
+		ast.Inspect(fd.Body, func(n ast.Node) bool {
+			is, ok := n.(*ast.IfStmt)
+			if !ok || !strings.Contains(src(is.Cond), "DetectBehavior.Role ==") {
+				return true
+			}
+			who := "?"
+			switch src(is.Cond) {
+			case `vResp.DetectBehavior.Role == "sender"`:
+				who = "v"
+			case `cResp.DetectBehavior.Role == "sender"`:
+				who = "c"
+			}
+			ms := int64(-1)
+			if len(is.Body.List) == 1 && is.Else == nil {
+				switch src(is.Body.List[0]) {
+				case "time.Sleep(1 * time.Second)", "time.Sleep(time.Second)":
+					ms = 1000
+				default:
+					if es, ok := is.Body.List[0].(*ast.ExprStmt); ok {
+						if call, ok := es.X.(*ast.CallExpr); ok && src(call.Fun) == "time.Sleep" && len(call.Args) == 1 {
+							if be, ok := call.Args[0].(*ast.BinaryExpr); ok && be.Op == token.MUL {
+								if v, ok := intLit(be.X); ok {
+									switch src(be.Y) {
+									case "time.Second":
+										ms = v * 1000
+									case "time.Millisecond":
+										ms = v
+									}
+								}
+							}
+						}
+					}
+				}
+			}
+			staggers = append(staggers, fmt.Sprintf("(%s, %s)", tx.CoqString(who), z(ms)))
+			return true
+		})
+	}
+
 	var b bytes.Buffer
 	b.WriteString("(* GENERATED by translator unit T2 from pkg/nathole/{analysis,nathole,classify,controller}.go -- do not edit *)\n")
 	b.WriteString("From FRP Require Import Model.NatHoleTypes.\nLocal Open Scope string_scope.\n")
@@ -591,5 +688,11 @@ func genNatHole() ([]byte, error) {
 	fmt.Fprintf(&b, "Definition nh_range_from : nh_expr := %s%%Z.\n", rangeFrom)
 	fmt.Fprintf(&b, "Definition nh_range_to : nh_expr := %s%%Z.\n", rangeTo)
 	fmt.Fprintf(&b, "Definition nh_port_reject : nh_bexpr := %s%%Z.\n", portReject)
+	fmt.Fprintf(&b, "Definition nh_timeout_init : nh_expr := %s%%Z.\n", tInit)
+	fmt.Fprintf(&b, "Definition nh_timeout_listen_guard : nh_bexpr := %s%%Z.\n", tGuard)
+	fmt.Fprintf(&b, "Definition nh_timeout_listen_add : nh_expr := %s%%Z.\n", tAdd)
+	fmt.Fprintf(&b, "Definition nh_vread_timeout : nh_expr := %s%%Z.\n", vRead)
+	fmt.Fprintf(&b, "Definition nh_cread_timeout : nh_expr := %s%%Z.\n", cRead)
+	fmt.Fprintf(&b, "Definition nh_staggers : list (string * Z) := [%s]%%Z.\n", strings.Join(staggers, "; "))
 	return b.Bytes(), nil
 }
